@@ -94,6 +94,12 @@ def ci_match(c, t):
 _DIGIT = re.compile(r'\d')
 
 
+def supported_format(fmt):
+    """every directive of the format is one the model implements (the others are an explicit `unsupported` outcome of the model)"""
+    import re
+    return all(d in 'dmYyHIMSfjbBaApwu%' for d in re.findall(r'%(.)', fmt)) and not fmt.endswith('%') or False
+
+
 def tables_for(fmt, text):
     """CPython's answers for every question the model can ask about a non-ASCII character of this case"""
     digits, lower, ci = [], [], []
